@@ -148,6 +148,18 @@ Proof.
   intros Hd R. induction R as [|s l s' R IH Lu H]; [apply uinv_init|]. eapply uinv_step; eauto.
 Qed.
 
+(* the structural invariant alone, for plain reachability (no guard on the demands) *)
+Lemma sinv_reachable c ths nv s : reachable (init c false ths nv) s -> sinv s.
+Proof.
+  intros R.
+  assert (I : sp_inv s /\ locks_inv s /\ sinv s).
+  { eapply (reachable_inv (fun s => sp_inv s /\ locks_inv s /\ sinv s)); [| |exact R].
+    - split; [apply sp_inv_init|]. split; [apply locks_inv_init|apply sinv_init].
+    - intros s1 l s2 (I1&I2&I3) H. split; [eapply sp_inv_step; eauto|]. split; [eapply locks_inv_step; eauto|].
+      eapply sinv_step; eauto. }
+  exact (proj2 (proj2 I)).
+Qed.
+
 Lemma tsum_zero F l : (forall t, F (nth t l thread0) = 0) -> tsum F l = 0.
 Proof.
   induction l as [|a r IH]; simpl; intros H; [reflexivity|].
